@@ -31,7 +31,9 @@ META = {
                    'UUID are uninterpreted tokens; only the glue is proved, end-to-end behaviour is covered by the '
                    'differential run and the oracle (sampling).'),
     'rule': ('case = (column type incl. ForeignKey across int/str idType, value, write path create/setattr/set/lazy+syncUpdate/'
-             'expire-assign-read-other-column-read (lazy and eager), class variant eager/lazy/'
+             'expire-assign-read-other-column-read (lazy and eager)/expire-sync-assign (expire, sync, assign[, syncUpdate on a lazy '
+             'class]; all three variants)/lazy-failflush (lazy class: deferred assignment whose first syncUpdate is refused by a '
+             'UNIQUE conflict on a second column, conflict removed, syncUpdate retried), class variant eager/lazy/'
              'cacheValues=False, connection cache on/off); distinct = distinct (type, canonical value token, path); '
              'non-trivial = value is not None'),
     'trusted': ['SQLite literal evaluation + column affinity rules as modelled in Model/Codec.lean (evalLit, applyAff, affinityOf; '
@@ -69,7 +71,7 @@ COLNAME = {'string': 'StringCol', 'unicode': 'UnicodeCol', 'int': 'IntCol', 'tin
            'pickle': 'PickleCol', 'uuid': 'UuidCol', 'json': 'JSONCol', 'fkInt': 'ForeignKey',
            'fkStr': 'ForeignKey', 'fkIntS': 'ForeignKey'}
 VARIANTS = ['eager', 'lazy', 'nocachevalues']
-PATHS = ['create', 'setattr', 'set', 'lazy', 'expire-lazy', 'expire-eager']
+PATHS = ['create', 'setattr', 'set', 'lazy', 'expire-lazy', 'expire-eager', 'expire-sync-assign', 'lazy-failflush']
 FK_TYPES = ('fkInt', 'fkStr', 'fkIntS')
 
 
@@ -140,6 +142,9 @@ def env():
                 else:
                     attrs['v'] = mk[T]()
                 attrs['w'] = col.IntCol(default=7)      # a second column: reading it reloads an expired object
+                # a third one (declared after v: attr_db takes columnList[0]) that can make an UPDATE fail: NULLs never
+                # conflict under UNIQUE, so every path but 'lazy-failflush' is unaffected by it
+                attrs['u'] = col.IntCol(default=None, unique=True)
                 cls = type(name, (SQLObject,), attrs)
                 try:
                     cls.createTable()
@@ -151,7 +156,7 @@ def env():
                     ENUM_VALUES[:] = ['a', 'x y', '']
                     name = sqlo.uniq('C01EnumPlain%s' % variant.capitalize())
                     attrs = {'_connection': conn, 'sqlmeta': sqlmeta, 'v': col.EnumCol(enumValues=list(ENUM_VALUES), default=None),
-                             'w': col.IntCol(default=7)}
+                             'w': col.IntCol(default=7), 'u': col.IntCol(default=None, unique=True)}
                     cls = type(name, (SQLObject,), attrs)
                     cls.createTable()
                 classes[(T, variant, cache)] = cls
@@ -675,9 +680,17 @@ def run_case(e, T, v, path, variant, cache):
     a = attr(T)
     out = {'write': 'ok', 'reads': {}, 'rid': None}
     obj = None
+    blocker = None
     wipe(cls)
     _rowid[0] += 1
     idkw = {'id': 'r%d' % _rowid[0]} if T == 'fkIntS' else {}
+
+    def view(name):
+        # the value the writing instance shows at this point of the sequence (a failing read is an outcome)
+        try:
+            out['reads'][name] = ('ok', getattr(obj, a))
+        except Exception as ex:
+            out['reads'][name] = (exc_kind(ex), '%s: %s' % (type(ex).__name__, str(ex)[:100]))
     try:
         if path == 'create':
             obj = cls(**dict(idkw, **{a: v}))
@@ -701,6 +714,34 @@ def run_case(e, T, v, path, variant, cache):
                     views.append(('after-syncUpdate-other-column', getattr(obj, a)))
                 for n, val in views:
                     out['reads'][n] = ('ok', val)
+            elif path == 'expire-sync-assign':
+                # expire, refresh the whole row with sync(), then assign (and flush on a lazy class)
+                obj.expire()
+                obj.sync()
+                setattr(obj, a, v)
+                view('writer-right-after-expire-sync-assign')
+                if cls.sqlmeta.lazyUpdate:
+                    obj.syncUpdate()
+                    view('writer-right-after-syncUpdate')
+            elif path == 'lazy-failflush' and variant == 'lazy':
+                # a deferred assignment whose first flush the database refuses (UNIQUE conflict on u with the
+                # blocker row); the conflict is removed and the flush retried: the value must reach the row
+                blocker = cls(**dict({'id': 'b%d' % _rowid[0]} if T == 'fkIntS' else {}, **{a: None, 'u': 1}))
+                obj.u = 1
+                setattr(obj, a, v)
+                view('pending')
+                try:
+                    obj.syncUpdate()
+                    out['first_flush'] = 'went through'      # not this property's business
+                except Exception as ex:
+                    out['first_flush'] = 'refused: %s' % type(ex).__name__
+                view('writer-after-refused-syncUpdate')
+                obj.u = 2
+                obj.syncUpdate()
+                view('writer-right-after-retried-syncUpdate')
+            elif path == 'lazy-failflush':
+                # not a lazy class: nothing is deferred, a plain assignment
+                setattr(obj, a, v)
             elif path == 'setattr':
                 setattr(obj, a, v)
             elif path == 'set':
@@ -721,6 +762,13 @@ def run_case(e, T, v, path, variant, cache):
     except Exception as ex:
         out['write'] = exc_kind(ex)
         out['write_exc'] = '%s: %s' % (type(ex).__name__, str(ex)[:120])
+    if blocker is not None:
+        # the blocker row is scaffolding: remove it (raw SQL) before the snapshot of the table and the queries
+        try:
+            conn.query('DELETE FROM %s WHERE id = %s' % (cls.sqlmeta.table, conn.sqlrepr(blocker.id)))
+            conn.cache.expire(blocker.id, cls)
+        except Exception as ex:
+            out['blocker_delete'] = 'error %s' % type(ex).__name__
     # what is in the table now
     try:
         rows = conn.queryAll('SELECT id, %s, typeof(%s) FROM %s' % (attr_db(cls), attr_db(cls), cls.sqlmeta.table))
@@ -1091,6 +1139,10 @@ def run(ctx):
                 variant = 'lazy'
             elif path == 'expire-eager':
                 variant = 'eager' if idx % 2 == 0 else 'nocachevalues'
+            elif path == 'lazy-failflush':
+                variant = 'lazy'
+            elif path == 'expire-sync-assign':
+                pass          # all three variants in rotation (the lazy one flushes with syncUpdate)
             elif path != 'lazy' and variant == 'lazy':
                 # eager paths on a lazy class only become visible after sync: covered by the 'lazy' path; use eager here
                 variant = 'eager'
@@ -1184,6 +1236,8 @@ def replay(case):
     out, cls, obj = run_case(e, T, v, case['path'], case['variant'], case['cache'])
     oracle(rec, e, T, v, case['path'], case['variant'], case['cache'], out, cls)
     text = 'write: %s %s\nrows: %r\nreads: %r' % (out['write'], out.get('write_exc', ''), out['rows'], out['reads'])
+    if 'first_flush' in out:
+        text += '\nfirst syncUpdate: %s' % out['first_flush']
     for key, what in rec.fails:
         text += '\nFAIL [%s] %s' % (key, what)
     return not rec.fails, text
